@@ -1,9 +1,25 @@
 (* C09 — samplers are scheduled exactly as the chosen scheduler prescribes.  Property theorems only. *)
 From Coq Require Import List ZArith Bool.
-From BlackIt Require Import Model.Calibrator Proofs.CalibratorP.
+From BlackIt Require Import Model.Calibrator Proofs.CalibratorP Proofs.CalibSchedP.
 Import ListNotations.
 
-Theorem C09_placeholder_one_batch_designated :
+(* Round-robin: after ANY sequence of calibrate(n) / create_checkpoint / restore operations on a calibrator built from
+   the list l0 (each sampler object once), the sampler designated for the next batch is at position
+   (global batch index) mod n and is the object that was supplied at that position (same class, identity, batch size). *)
+Theorem C09_round_robin_global :
+  forall Param Series LossV model lossf loss_leb rounds0 propose draws agent_actions plan cfg0 l0 s0 ops,
+    NoDup (map s_uid l0) ->
+    construct Param Series LossV cfg0 (Some l0) None = inl s0 ->
+    Forall plain ops ->
+    let s := run Param Series LossV model lossf loss_leb rounds0 propose draws agent_actions plan ops s0 in
+    forall i sc1, next_sampler LossV agent_actions (sch _ _ _ (live _ _ _ s)) = Some (i, sc1) ->
+      i = batch_idx _ _ _ (live _ _ _ s) mod length l0 /\
+      forall m, nth_error (sched_samplers _ sc1) i = Some m -> nth_error (map skey l0) i = Some (skey m).
+Proof. exact round_robin_global. Qed.
+Print Assumptions C09_round_robin_global.
+
+(* ... and the batch recorded has exactly that sampler's batch_size rows, labelled with the global batch index. *)
+Theorem C09_batch_has_designated_size :
   forall Param Series LossV model lossf loss_leb rounds0 propose draws agent_actions plan,
   (forall s ps ls, length (propose s ps ls) = s_bsize s) ->
   forall s s' o,
@@ -17,4 +33,34 @@ Theorem C09_placeholder_one_batch_designated :
         (o = Done \/ o = Converged \/ o = Raised ExValue \/ o = Raised ExOther) /\
         (disk _ _ _ s' = disk _ _ _ s \/ disk _ _ _ s' = Some (live _ _ _ s'))).
 Proof. exact one_batch_cases. Qed.
-Print Assumptions C09_placeholder_one_batch_designated.
+Print Assumptions C09_batch_has_designated_size.
+
+(* RL scheduler (sequential view): first batch from the bootstrap index, later batches from the agent's queue in order. *)
+Theorem C09_rl_first_is_bootstrap : forall LossV agent_actions l h st al cs,
+  next_sampler LossV agent_actions (RL LossV l h None st al cs) = Some (h, RL LossV l h None st al cs).
+Proof. exact rl_first_is_bootstrap. Qed.
+Print Assumptions C09_rl_first_is_bootstrap.
+Theorem C09_rl_later_from_agent : forall LossV agent_actions l h b st al cs,
+  next_sampler LossV agent_actions (RL LossV l h (Some b) st al cs) = Some (agent_actions cs, RL LossV l h (Some b) st al (S cs)).
+Proof. exact rl_later_from_agent. Qed.
+Print Assumptions C09_rl_later_from_agent.
+
+(* The constructor raises ValueError exactly for both-or-neither, and accepts exactly-one. *)
+Theorem C09_ctor_rejects_iff : forall Param Series LossV cfg0 (samplers : option (list sampler)) (scheduler : option (sched LossV)),
+  construct Param Series LossV cfg0 samplers scheduler = inr ExValue <->
+  ((samplers = None /\ scheduler = None) \/ (samplers <> None /\ scheduler <> None)).
+Proof. exact ctor_rejects_iff. Qed.
+Print Assumptions C09_ctor_rejects_iff.
+Theorem C09_ctor_accepts : forall Param Series LossV cfg0 (samplers : option (list sampler)) (scheduler : option (sched LossV)),
+  (samplers = None <-> scheduler <> None) -> exists s, construct Param Series LossV cfg0 samplers scheduler = inl s.
+Proof. exact ctor_accepts. Qed.
+Print Assumptions C09_ctor_accepts.
+
+(* RL: the bootstrap sampler is a Halton sampler - the supplied one (the last of them) or one added at the end. *)
+Theorem C09_rl_bootstrap_spec : forall l fresh, s_class fresh = HALTON ->
+  let '(l', h) := rl_bootstrap l fresh in
+  (exists s, nth_error l' h = Some s /\ s_class s = HALTON) /\
+  ((exists s, In s l /\ s_class s = HALTON) -> l' = l) /\
+  ((forall s, In s l -> s_class s <> HALTON) -> l' = l ++ [fresh] /\ h = length l).
+Proof. exact rl_bootstrap_spec. Qed.
+Print Assumptions C09_rl_bootstrap_spec.
